@@ -118,6 +118,19 @@ def modelStep (s : St) (op : List String) (exts : List (List String)) : St × Op
     | none => (s, some "bad-op")
   | ["reload", host, reason, sc, cnt, dry, attrs, _] =>
     r (step s (.reload (parseCfg host reason sc cnt dry attrs)))
+  | ["floor", "det", n] => match n.toInt? with
+    -- `Start` divides by uint32(SampleRate): a multiple of 2^32 is C10's business, not modelled here
+    | some n => (s, some (if n % (two32 : Int) = 0 then "*" else toString (deterministicRate n)))
+    | none => (s, some "bad-op")
+  | ["floor", "dyn", n] => match n.toInt? with
+    | some n => (s, some (match dynOutcome n with | some x => toString x | none => "panic"))
+    | none => (s, some "bad-op")
+  | ["floor", "rule", n, _] => match n.toInt? with
+    | some n => (s, some (toString (rulesRate n)))
+    | none => (s, some "bad-op")
+  | ["conv", "batch", i] => match i.toInt? with
+    | some i => (s, some (toString (batchRate i)))
+    | none => (s, some "bad-op")
   | _ => (s, some "bad-op")
 
 def initSt (args : List String) : St :=
@@ -368,6 +381,19 @@ def monStep (m : MSt) (op : List String) (exts : List (List String)) (obs : Opti
     | _ => (m, [])
   | ["reload", host, reason, sc, cnt, dry, attrs, _] =>
     ({ m with cfg := parseCfg host reason sc cnt dry attrs }, [])
+  | "floor" :: kind :: _ =>
+    -- sampler floor: a sampler that says "keep" gives a rate of at least 1
+    let keep := match findExt exts "keep" with | some [k] => flag k | _ => false
+    match (obs.getD "").toNat? with
+    | some rate => if keep && rate < 1 then
+        (m, [mkFail "C04" s!"C04:sampler-rate-below-one:sampler={kind}" s!"{" ".intercalate op}: kept with rate {rate}"]) else (m, [])
+    | none => (m, [])
+  | ["conv", "batch", i] =>
+    match i.toInt?, (obs.getD "").toNat? with
+    | some i, some got =>
+      if 0 ≤ i && i < (two31 : Int) && got != (if i = 0 then 1 else i.toNat) then
+        (m, [mkFail "C04" "C04:router-rate-conversion:path=batch" s!"client sample rate {i} converted to {got}"]) else (m, [])
+    | _, _ => (m, [])
   | _ => (m, [])
 
 def minit (args : List String) : MSt :=
